@@ -28,7 +28,7 @@ def main(tier: str, only=None) -> int:
     with cf.ProcessPoolExecutor(max_workers=common.jobs()) as ex:
         results = list(ex.map(OC.model_worker, payloads, chunksize=2))
     # value verdicts only for models with initializer-inputs (the rest is C03's claim)
-    with_override = [r for r in results if "initializer_input" in (r.get("features") or [])]
+    with_override = [r for r in results if {"initializer_input", "overridable_defaults"} & set(r.get("features") or [])]
     counts, solver, samples, n_pairs, n_changed, _, side = C3.aggregate(run, results, "C04", want_value=False, want_sides=True)
     c2, s2, _, n2, _, _, _ = C3.aggregate(run, with_override, "C04", want_value=True, want_sides=False)
     run.coverage.update({
